@@ -276,6 +276,7 @@ static void parse_case(char *text)
             G.drain = (int)kv(line, "drain", 1);
             G.tick = (uint64_t)kv(line, "tick", 1);
             G.leakcheck = (int)kv(line, "leakcheck", 1);
+            G.canary = (int)kv(line, "canary", 0);
         } else if (!strncmp(line, "env A ", 6) || !strncmp(line, "env B ", 6)) {
             char *dst = line[4] == 'A' ? g_envA : g_envB;
             strncpy(dst, line + 6, 255);
